@@ -16,6 +16,13 @@ interleaving of apply(vector | single-vector tensor | tensor) with accumulate(ve
 and refused calls on ONE instance, merged search to a depth bound plus an un-merged enumeration
 on new objects (see the comment block above _Hist).
 
+Engine E (sub-check instances): up to two LIVE instances and two statistics files under every
+history of load / new / accumulate / save, re-executed from scratch (no deep copies, which would
+sever aliasing between instances): an instance's transform depends on ITS vectors only.
+
+Engine L (sub-check mismatch): every mismatching length (0, 1 = broadcastable, F-1, F+1, F+2, 2F)
+at every entry point raises ValueError and leaves the statistics alone.
+
 Engine L (sub-checks local, global_apply): local standardisation and apply() with given
 statistics over tensor shapes x axes x dtypes x norm_var x in_place, and the ValueError on a
 mismatching feature dimension.
@@ -43,12 +50,20 @@ ASSUMPTIONS = [
     "local / global_apply: well-separated generic values (any two entries differ by >= 0.8, "
     "magnitudes <= ~40) so that rtol 1e-10 is far above round-off of either formula",
     "call_histories: 8 integer-valued vectors (statistics of equal multisets are bit-identical, so states "
-    "merge); 53 letters; merged search to depth 4 (quick) / 5 (thorough) assumes the canonical form (instance, "
+    "merge); 55 letters; merged search to depth 4 (quick) / 5 (thorough) assumes the canonical form (instance, "
     "class and module-level data of pydrobert.speech.post) holds all state, the un-merged enumeration of all "
     "sequences of 3 calls (2 for F=1 in quick) does not; a single vector without statistics: zeros without "
     "norm_var, no value demanded with norm_var (zero variance)",
     "the 'loaded' start state reads a 2 x (F+1) float64 .npy written by the harness (sums and "
     "count in row 0, sums of squares in row 1), as documented for the statistics matrix",
+    "call_histories, held results: in the un-merged enumeration every array apply() returned is kept to the "
+    "end of the sequence; numpy.shares_memory decides aliasing",
+    "instances: 2 instance slots (interchangeable: slot 0 is bound first), 2 paths of one kind (.npy / raw with "
+    "force_as='file' / .npz with key 'k'), 6 integer-valued positive vectors, F in {2, 1}; depth 4 (quick) / 5 "
+    "(thorough); initial file written by the harness (numpy.save / tofile / savez of the statistics matrix); "
+    "every history runs in a directory of its own, so state keyed by file NAME cannot leak from one history "
+    "into the next (state keyed otherwise could; replays would then differ and be reported as HARNESS-ERROR)",
+    "mismatch: a 0-d array is not a feature vector (outside the lattice); lengths {0, 1, F-1, F+1, F+2, 2F}",
 ]
 
 RTOL = 1e-10
@@ -174,8 +189,10 @@ class Ctx:
             ("2d:-2:i32", sig.ro(np.round(p.T).astype(np.int32)), -2),
         ]
         self.pristine = [np.array(x, copy=True) for _, x, _ in self.probes]
-        self.bad_vec = sig.ro(np.arange(F + 1, dtype=np.float64))
-        self.bad_2d = sig.ro(np.arange(2.0 * (F + 1)).reshape(2, F + 1))
+        self.bad = {"vec": sig.ro(np.arange(F + 1, dtype=np.float64)),
+                    "2d": sig.ro(np.arange(2.0 * (F + 1)).reshape(2, F + 1)),
+                    # one coefficient: broadcastable onto any number of coefficients
+                    "vec1": sig.ro(np.array([3.0])), "2d1": sig.ro(np.array([[3.0], [-1.0]]))}
 
     def tags(self, **kw):
         t = dict(norm_var=self.norm_var)
@@ -260,6 +277,10 @@ def _ops(ctx, s):
         yield ["bad_acc", "2d"]
         yield ["bad_apply", "vec"]
         yield ["bad_apply", "2d"]
+        if ctx.F > 1:
+            for name in ("bad_acc", "bad_apply"):
+                for pres in ("vec1", "2d1"):
+                    yield [name, pres]
 
 
 def _step(ctx, s, op):
@@ -285,7 +306,7 @@ def _step(ctx, s, op):
         viol.extend(v)
         return St(obj, sub), viol, ("acc", len(sub), pk, compared > 0)
     # refusals: a mismatching feature dimension raises ValueError
-    bad = ctx.bad_vec if op[1] == "vec" else ctx.bad_2d
+    bad = ctx.bad[op[1]]
     if name == "bad_acc":
         r = computers.call(obj.accumulate, bad)
     else:
@@ -295,8 +316,8 @@ def _step(ctx, s, op):
         viol.append(core.violation(
             ctx.tags(what="mismatch_accepted", op=name, pres=op[1]),
             "%s of a tensor with %d coefficients on statistics for %d: %s" % (
-                name, ctx.F + 1, ctx.F, "returned" if r[0] == "ok" else "%s: %s" % (r[1], r[2]))))
-    return St(obj, s.sub), viol, (name, r[0])
+                name, bad.shape[-1], ctx.F, "returned" if r[0] == "ok" else "%s: %s" % (r[1], r[2]))))
+    return St(obj, s.sub), viol, (name, op[1], r[0])
 
 
 def _initial(ctx, scratch):
@@ -677,6 +698,9 @@ def _m_entries(F):
     return out
 
 
+_M_CASE = [0]
+
+
 def _m_object(seed, F, norm_var, origin, scratch):
     """(object with the statistics of rows 0..2, data)"""
     from pydrobert.speech import post
@@ -689,10 +713,15 @@ def _m_object(seed, F, norm_var, origin, scratch):
                 stats[0, f] += data[i, f]
                 stats[1, f] += data[i, f] * data[i, f]
             stats[0, F] += 1
-        path = os.path.join(scratch, "m.npy")
-        if not os.path.exists(path):
-            np.save(path, stats)
-        return post.Standardize(path, norm_var=norm_var), data
+        # a file name no earlier case of this process has used: state the implementation keys by
+        # file name cannot leak from one case into the next (exact replays)
+        _M_CASE[0] += 1
+        path = os.path.join(scratch, "m%d.npy" % _M_CASE[0])
+        np.save(path, stats)
+        try:
+            return post.Standardize(path, norm_var=norm_var), data
+        finally:
+            os.remove(path)
     obj = post.Standardize(norm_var=norm_var)
     if origin == "vectors":
         for i in range(3):
@@ -821,7 +850,7 @@ H_ACC_ROWS = {"vec": (0,), "vec:f32": (1,), "t2:-1": (2, 3, 4), "t2:0": (5, 6), 
               "t1:-1": (7,), "t2:-1:i16": (0, 3)}
 H_APPLY_KINDS = ("vec", "1xF", "Fx1", "3xF", "Fx3", "2xFx2", "1x1xF")
 H_APPLY_DTYPES = ("float64", "float32", "int16")
-H_NLETTERS = 7 + 7 * 3 * 2 + 4
+H_NLETTERS = 7 + 7 * 3 * 2 + 4 + 2
 
 
 def _h_acc_arg(data, name, F):
@@ -881,11 +910,13 @@ class _Hist:
         self.acc = dict((n, _h_acc_arg(self.data, n, F)) for n in H_ACC)
         self.app = dict(((k, d), _h_apply_arg(seed, k, d, F)) for k in H_APPLY_KINDS for d in H_APPLY_DTYPES)
         self.bad = {"vec": sig.ro(np.arange(F + 1, dtype=np.float64) - 1.5),
-                    "2d": sig.ro(np.arange(2.0 * (F + 1)).reshape(2, F + 1) - 2.5)}
+                    "2d": sig.ro(np.arange(2.0 * (F + 1)).reshape(2, F + 1) - 2.5),
+                    "vec1": sig.ro(np.array([2.5]))}  # one coefficient: broadcastable
         self.letters = [["acc", n] for n in H_ACC]
         self.letters += [["apply", k, d, ip] for k in H_APPLY_KINDS for d in H_APPLY_DTYPES
                          for ip in (False, True)]
         self.letters += [["bad_acc", "vec"], ["bad_acc", "2d"], ["bad_apply", "vec"], ["bad_apply", "2d"]]
+        self.letters += [["bad_acc", "vec1"], ["bad_apply", "vec1"]]
         if len(self.letters) != H_NLETTERS:
             raise core.HarnessError("alphabet size")
         self._want = {}
@@ -900,8 +931,11 @@ class _Hist:
         return obj
 
     def valid(self, L, rows):
-        # a "mismatching" dimension needs statistics to mismatch with
-        return not L[0].startswith("bad") or len(rows) > 0
+        # a "mismatching" dimension needs statistics to mismatch with (and one coefficient
+        # mismatches only statistics for more than one)
+        if L[0].startswith("bad"):
+            return len(rows) > 0 and (L[1] != "vec1" or self.F > 1)
+        return True
 
     def tags(self, L, hist, what, rows, **kw):
         def kinds(which):
@@ -953,8 +987,9 @@ class _Hist:
         self._want[k] = (ref_vals, r, defined)
         return self._want[k]
 
-    def raw(self, obj, L, rows):
-        """perform letter L without the oracle (prefix of a longer sequence); returns new rows"""
+    def raw(self, obj, L, rows, held=None):
+        """perform letter L without the oracle (prefix of a longer sequence); returns new rows;
+        held: list that receives (result, its bits when returned, input, in_place, letter)"""
         with warnings.catch_warnings():
             warnings.simplefilter("ignore")
             if L[0] == "acc":
@@ -968,12 +1003,51 @@ class _Hist:
             x, axis = self.app[(L[1], L[2])]
             arg = np.array(x, copy=True)
             if axis is None:
-                computers.call(lambda: obj.apply(arg, in_place=L[3]))
+                r = computers.call(lambda: obj.apply(arg, in_place=L[3]))
             else:
-                computers.call(obj.apply, arg, axis, L[3])
+                r = computers.call(obj.apply, arg, axis, L[3])
+            if held is not None and r[0] == "ok" and isinstance(r[1], np.ndarray):
+                held.append((r[1], (r[1].dtype.str, r[1].shape, r[1].tobytes()), arg, bool(L[3]), L, x))
             return rows
 
-    def call(self, obj, L, rows, hist):
+    def held_oracle(self, held, seq):
+        """end of a sequence on one object: every array apply() returned is still what it was when it
+        was returned, no two of them share memory, one shares memory with an input only if that
+        very call was in_place, and the inputs of the other calls are still bit-identical"""
+        viol = []
+        case = dict(mode="history", config=self.c, ops=[list(l) for l in seq])
+
+        def tags(h, what, **kw):
+            t = dict(mode="history", norm_var=self.norm_var, what=what, dtype=h[4][2],
+                     probe="vec" if h[4][1] == "vec" else "tensor")
+            t.update(kw)
+            return t
+
+        for i, h in enumerate(held):
+            got, bits, arg, ip, L, x = h
+            if (got.dtype.str, got.shape, got.tobytes()) != bits:
+                viol.append(core.violation(
+                    tags(h, "held_result_changed"),
+                    "the array returned by %s was changed by the later calls of the sequence %s" % (
+                        list(L), [list(l) for l in seq]), case))
+            if not ip and not _same_bits(arg, x):
+                viol.append(core.violation(tags(h, "held_input_changed"),
+                                           "the input of %s was changed by the end of the sequence %s" % (
+                                               list(L), [list(l) for l in seq]), case))
+            for j, g in enumerate(held):
+                if j > i and np.shares_memory(got, g[0]):
+                    viol.append(core.violation(
+                        tags(g, "results_share_memory"),
+                        "the arrays returned by apply calls %s and %s of the sequence %s share memory" % (
+                            list(L), list(g[4]), [list(l) for l in seq]), case))
+                if np.shares_memory(got, g[2]) and not (i == j and ip):
+                    viol.append(core.violation(
+                        tags(h, "result_aliases_input", same_call=bool(i == j)),
+                        "the array returned by %s shares memory with the input of %s (sequence %s)" % (
+                            list(L), list(g[4]), [list(l) for l in seq]), case))
+        return viol
+
+    def call(self, obj, L, rows, hist, held=None):
         """apply letter L to the (used) object; returns (violations, new rows, observation)"""
         case = dict(mode="history", config=self.c)
         where = _Lazy(hist, rows, L)
@@ -999,7 +1073,7 @@ class _Hist:
                 viol.append(core.violation(
                     self.tags(L, hist, "mismatch_accepted", rows),
                     "%s: %d coefficients on statistics for %d: %s" % (
-                        where, self.F + 1, self.F, "returned" if r[0] == "ok" else "%s: %s" % (r[1], r[2])),
+                        where, bad.shape[-1], self.F, "returned" if r[0] == "ok" else "%s: %s" % (r[1], r[2])),
                     case))
             return viol, rows, (L[0], L[1], r[0])
         _, kind, dtype, ip = L
@@ -1010,6 +1084,8 @@ class _Hist:
             warnings.simplefilter("ignore")
             r = computers.call(lambda: obj.apply(arg, in_place=ip)) if axis is None else \
                 computers.call(obj.apply, arg, axis, ip)
+        if held is not None and r[0] == "ok" and isinstance(r[1], np.ndarray):
+            held.append((r[1], (r[1].dtype.str, r[1].shape, r[1].tobytes()), arg, bool(ip), L, x))
         if not ip and not _same_bits(arg, x):
             viol.append(core.violation(self.tags(L, hist, "input_modified", rows),
                                        "%s changed its input" % where, case))
@@ -1060,13 +1136,14 @@ class _Hist:
 def _eval_history(c, seed, tier, replay_ops=None):
     H = _Hist(c, seed)
     if replay_ops is not None:
-        obj, rows, hist, viol = H.make(), H.start_rows, (), []
+        obj, rows, hist, viol, held = H.make(), H.start_rows, (), [], []
         for L in replay_ops:
             if not H.valid(L, rows):
                 raise core.HarnessError("replay: %r is outside the alphabet without statistics" % (L,))
-            v, rows, _ = H.call(obj, L, rows, hist)
+            v, rows, _ = H.call(obj, L, rows, hist, held)
             viol.extend(v)
             hist = hist + (tuple(L),)
+        viol.extend(H.held_oracle(held, replay_ops))
         for v in viol:
             v["case"] = dict(mode="history", config=c, ops=replay_ops)
         return core.result(viol)
@@ -1117,20 +1194,23 @@ def _eval_history(c, seed, tier, replay_ops=None):
             seq = (first,) + rest
             obj, rows, hist = H.make(), H.start_rows, ()
             ok = True
+            held = []
             for i, L in enumerate(seq):
                 if not H.valid(L, rows):
                     ok = False
                     break
                 calls += 1
                 if i < plain - 1:  # prefixes are histories of the BFS / of shorter sequences
-                    rows = H.raw(obj, L, rows)
+                    rows = H.raw(obj, L, rows, held)
                 else:
-                    v, rows, o = H.call(obj, L, rows, hist)
+                    v, rows, o = H.call(obj, L, rows, hist, held)
                     for w in v:
                         w["case"] = dict(w["case"], ops=[list(l) for l in seq])
                     viol.extend(v)
                     obs.add(o)
                 hist = hist + (tuple(L),)
+            if ok and len(held) > 1:
+                viol.extend(H.held_oracle(held, seq))
             seqs += int(ok)
             pruned += int(not ok)
             if len(viol) >= 80:
@@ -1172,6 +1252,283 @@ def _history_configs(tier):
     return out
 
 
+# ------------------------------------------------------------------ several LIVE instances and files
+#
+# The searches above follow ONE instance (and deep-copy it per transition, which severs any
+# aliasing between objects).  Here up to two live instances and two statistics files are driven
+# through EVERY history over
+#     load(slot, path) | new(slot) | accumulate(slot, vector | tensor) | save(slot, path)
+# up to a depth bound.  Nothing is copied: every history is re-executed from scratch in its own
+# scratch directory.  The model knows the multiset of vectors behind every instance and every
+# file; at the end of every history (every prefix is a history of its own) apply() of every live
+# instance must be the transform of ITS vectors - whatever happened to the other instance or to the
+# file it was loaded from afterwards - and a fresh load of every file must be the transform of the
+# vectors last saved there.
+
+I_KINDS = ("npy", "raw", "npz")
+I_PIECES = {"vec": (2,), "ten": (3, 4, 5)}
+I_PATHS = ("P", "Q")
+
+
+def _i_letters():
+    out = []
+    for s in (0, 1):
+        out += [["load", s, p] for p in I_PATHS]
+        out.append(["new", s])
+    for s in (0, 1):
+        out += [["acc", s, k] for k in ("vec", "ten")]
+    for s in (0, 1):
+        out += [["save", s, p] for p in I_PATHS]
+    return out
+
+
+I_LETTERS = _i_letters()
+
+
+def _i_model_step(st, L):
+    """st = (slots, files): slots[i] is None (unbound) or the tuple of rows behind the instance,
+    files[p] likewise.  Returns the next model state, or None if L is not applicable."""
+    slots, files = st
+    slots, files = list(slots), dict(files)
+    s = L[1]
+    if L[0] in ("load", "new"):
+        if s == 1 and slots[0] is None:
+            return None  # the slots are interchangeable: slot 0 is bound first
+        if L[0] == "load":
+            if files[L[2]] is None:
+                return None
+            slots[s] = files[L[2]]
+        else:
+            slots[s] = ()
+    elif L[0] == "acc":
+        if slots[s] is None:
+            return None
+        slots[s] = tuple(sorted(slots[s] + I_PIECES[L[2]]))
+    else:
+        if not slots[s]:
+            return None  # unbound, or nothing accumulated (ValueError: C17's business)
+        files[L[2]] = slots[s]
+    return (tuple(slots), tuple(sorted(files.items())))
+
+
+def _i_histories(depth, prefix=()):
+    """every applicable history that extends prefix, up to `depth` letters, shortest first"""
+    st = ((None, None), (("P", (0, 1)), ("Q", None)))
+    for L in prefix:
+        st = _i_model_step((st[0], dict(st[1])), L)
+        if st is None:
+            return
+    level = [(tuple(prefix), st)]
+    while level:
+        nxt = []
+        for h, st in level:
+            yield h, st
+            if len(h) < depth:
+                for L in I_LETTERS:
+                    st2 = _i_model_step((st[0], dict(st[1])), L)
+                    if st2 is not None:
+                        nxt.append((h + (L,), st2))
+        level = nxt
+
+
+class _Inst:
+    def __init__(self, c, seed):
+        self.c, self.seed = c, seed
+        self.F, self.norm_var, self.kind = c["F"], bool(c["norm_var"]), c["kind"]
+        self.data = _dataset(seed, 6, self.F, "positive")
+        self.probe = sig.ro(_separated(seed, (3, self.F), offset=80))
+        self.pieces = {"vec": sig.ro(self.data[2]), "ten": sig.ro(self.data[3:6])}
+        self._want = {}
+
+    def fname(self, d, p):
+        return os.path.join(d, p + {"npy": ".npy", "raw": ".bin", "npz": ".npz"}[self.kind])
+
+    def load_kw(self):
+        kw = {"norm_var": self.norm_var}
+        if self.kind == "raw":
+            kw["force_as"] = "file"
+        if self.kind == "npz":
+            kw["key"] = "k"
+        return kw
+
+    def write_initial(self, d):
+        stats = np.zeros((2, self.F + 1))
+        for i in (0, 1):
+            for f in range(self.F):
+                stats[0, f] += self.data[i, f]
+                stats[1, f] += self.data[i, f] * self.data[i, f]
+            stats[0, self.F] += 1
+        path = self.fname(d, "P")
+        if self.kind == "npy":
+            np.save(path, stats)
+        elif self.kind == "raw":
+            stats.tofile(path)
+        else:
+            np.savez(path, k=stats)
+
+    def want(self, rows):
+        """(values or None when a zero variance leaves them undefined)"""
+        if rows not in self._want:
+            mean, var = ref.mean_var([self.data[i] for i in rows])
+            if self.norm_var and bool(np.any(var == 0.0)):
+                self._want[rows] = None
+            else:
+                self._want[rows] = ref.standardize(self.probe, mean, var, -1, self.norm_var)
+        return self._want[rows]
+
+    def tags(self, hist, what, **kw):
+        loads = [L[2] for L in hist if L[0] == "load"]
+        t = dict(mode="instances", what=what, kind=self.kind, norm_var=self.norm_var,
+                 same_file_loaded_twice=len(loads) != len(set(loads)),
+                 accumulate_in_history=any(L[0] == "acc" for L in hist),
+                 save_in_history=any(L[0] == "save" for L in hist))
+        t.update(kw)
+        return t
+
+    def check_apply(self, obj, rows, hist, what, who, case):
+        with warnings.catch_warnings():
+            warnings.simplefilter("ignore")
+            hs = computers.call(lambda: bool(obj.have_stats))
+            if hs != ("ok", bool(rows)):
+                return [core.violation(self.tags(hist, what, sub="have_stats"),
+                                       "%s: have_stats is %r, the model has %d vectors" % (who, hs[1:], len(rows)),
+                                       case)], None
+            if not rows:
+                return [], ("empty",)
+            r = computers.call(obj.apply, np.array(self.probe, copy=True), -1)
+        if r[0] != "ok":
+            return [core.violation(self.tags(hist, what, sub="exception", exc=r[1]),
+                                   "%s: apply raised %s: %s" % (who, r[1], r[2]), case)], None
+        want = self.want(rows)
+        if want is None:
+            return [], ("undefined",)
+        got = r[1]
+        if not isinstance(got, np.ndarray) or got.shape != want.shape or got.dtype != np.float64 or \
+                not np.all(np.abs(got - want) <= RTOL * (1.0 + np.abs(want))):
+            return [core.violation(
+                self.tags(hist, what, sub="values"),
+                "%s: apply(probe)[0] = %r; (x-mean)/std of its vectors %s = %r" % (
+                    who, np.asarray(got)[0].tolist(), list(rows), want[0].tolist()), case)], None
+        return [], ("ok", len(rows))
+
+    def run(self, hist, scratch_root, n):
+        """execute one history in a directory of its own; returns (violations, observations)"""
+        from pydrobert.speech import post
+
+        d = os.path.join(scratch_root, "h%d" % n)
+        os.mkdir(d)
+        case = dict(mode="instances", config=self.c, ops=[list(L) for L in hist])
+        viol, obs = [], []
+        keep = []  # every instance ever made stays alive (no address re-use)
+        try:
+            self.write_initial(d)
+            st = ((None, None), (("P", (0, 1)), ("Q", None)))
+            objs = [None, None]
+            for i, L in enumerate(hist):
+                st2 = _i_model_step((st[0], dict(st[1])), L)
+                if st2 is None:
+                    raise core.HarnessError("history %r is not applicable at %d" % (hist, i))
+                s = L[1]
+                with warnings.catch_warnings():
+                    warnings.simplefilter("ignore")
+                    if L[0] == "load":
+                        r = computers.call(lambda: post.Standardize(self.fname(d, L[2]), **self.load_kw()))
+                        if r[0] == "ok":
+                            objs[s] = r[1]
+                            keep.append(r[1])
+                    elif L[0] == "new":
+                        r = computers.call(lambda: post.Standardize(norm_var=self.norm_var))
+                        if r[0] == "ok":
+                            objs[s] = r[1]
+                            keep.append(r[1])
+                    elif L[0] == "acc":
+                        r = computers.call(objs[s].accumulate, self.pieces[L[2]], -1)
+                    elif self.kind == "npz":
+                        r = computers.call(objs[s].save, self.fname(d, L[2]), "k")
+                    else:
+                        r = computers.call(objs[s].save, self.fname(d, L[2]))
+                if r[0] != "ok":
+                    viol.append(core.violation(
+                        self.tags(hist[:i + 1], "exception", op=L[0], exc=r[1]),
+                        "history %s: %s raised %s: %s" % ([list(h) for h in hist[:i]], list(L), r[1], r[2]), case))
+                    return viol, obs
+                st = st2
+            for s in (0, 1):
+                if st[0][s] is not None:
+                    v, o = self.check_apply(objs[s], st[0][s], hist, "instance_apply",
+                                            "after %s, instance %d" % ([list(h) for h in hist], s), case)
+                    viol.extend(v)
+                    obs.append(("inst", o))
+            for p, rows in st[1]:
+                if rows is None:
+                    continue
+                with warnings.catch_warnings():
+                    warnings.simplefilter("ignore")
+                    r = computers.call(lambda: post.Standardize(self.fname(d, p), **self.load_kw()))
+                if r[0] != "ok":
+                    viol.append(core.violation(
+                        self.tags(hist, "fresh_load", sub="exception", exc=r[1]),
+                        "after %s: loading file %s raised %s: %s" % ([list(h) for h in hist], p, r[1], r[2]), case))
+                    continue
+                keep.append(r[1])
+                v, o = self.check_apply(r[1], rows, hist, "fresh_load",
+                                        "after %s, a new instance loaded from file %s" % (
+                                            [list(h) for h in hist], p), case)
+                viol.extend(v)
+                obs.append(("file", o))
+        finally:
+            shutil.rmtree(d, ignore_errors=True)
+        return viol, obs
+
+
+def _eval_instances(c, seed, replay_ops=None):
+    I = _Inst(c, seed)
+    scratch = tempfile.mkdtemp(prefix="verif-")
+    viol, obs = [], set()
+    n = hists = calls = 0
+    try:
+        if replay_ops is not None:
+            v, _ = I.run(tuple(replay_ops), scratch, 0)
+            return core.result(v)
+        if c["prefix"] == "short":
+            todo = _i_histories(1)
+        else:
+            todo = _i_histories(c["depth"], tuple(c["prefix"]))
+        for h, _ in todo:
+            n += 1
+            v, o = I.run(h, scratch, n)
+            hists += 1
+            calls += len(h)
+            viol.extend(v)
+            obs.update(o)
+            if len(viol) >= 200:
+                break
+    finally:
+        shutil.rmtree(scratch, ignore_errors=True)
+    seen, uniq = set(), []
+    for v in viol:
+        hh = core.sig_hash(v["tags"])
+        if hh not in seen:
+            seen.add(hh)
+            uniq.append(v)
+    return core.result(uniq, nontrivial=hists > 0, obs=sorted(map(str, obs)), obs_is_set=True, evals=hists,
+                       nontrivial_count=hists, impl_calls=calls,
+                       sample=dict(config=c, histories=hists, letters=len(I_LETTERS)))
+
+
+def _instance_configs(tier):
+    depth = 4 if tier == "quick" else 5
+    prefixes = [[list(L) for L in h] for h, _ in _i_histories(2) if len(h) == 2]
+    out = []
+    for kind in I_KINDS:
+        for norm_var in (True, False):
+            for F in (2, 1):
+                base = dict(kind=kind, norm_var=norm_var, F=F, depth=depth)
+                out.append(dict(base, prefix="short"))
+                out += [dict(base, prefix=p) for p in prefixes]
+    return out
+
+
 def subchecks(tier, seed):
     cs = _configs(tier)
     ext = (1, 2, 3, 4) if tier == "quick" else (1, 2, 3, 4, 6)
@@ -1195,7 +1552,7 @@ def subchecks(tier, seed):
             "call_histories", _history_configs(tier), lambda c: _eval_history(c, seed, tier),
             "ONE Standardize per configuration: every history over the alphabet {accumulate x 7 "
             "presentations, apply x 7 shapes x 3 dtypes x in_place, refused accumulate/apply of a "
-            "mismatching dimension}: BFS with state merging to the depth bound and every sequence of "
+            "mismatching dimension (F+1 coefficients, and 1 coefficient when F > 1)}: BFS with state merging to the depth bound and every sequence of "
             "`plain` calls on a new object without merging; every apply against the direct formula over "
             "the model's multiset of vectors (local standardisation before any accumulate), float64, input "
             "bit-identical unless in_place, and a fresh object's result where a zero variance leaves the "
@@ -1205,7 +1562,10 @@ def subchecks(tier, seed):
                       plain_length="%d (F=3), %d (F=1)" % ((3, 2) if tier == "quick" else (3, 3)),
                       accumulate=list(H_ACC), apply_shape=list(H_APPLY_KINDS), apply_dtype=list(H_APPLY_DTYPES),
                       in_place=[False, True], refused=["bad_acc:vec", "bad_acc:2d", "bad_apply:vec",
-                                                       "bad_apply:2d"]),
+                                                       "bad_apply:2d", "bad_acc:vec1 (F>1)",
+                                                       "bad_apply:vec1 (F>1)"],
+                      held="every apply() result of an un-merged sequence is held to its end: unchanged, no "
+                           "memory shared with another result or a foreign input"),
             replay=lambda case: _eval_history(case["config"], seed, tier, replay_ops=case["ops"]),
             chunk=1, kind="explore"),
         core.SubCheck(
@@ -1225,6 +1585,17 @@ def subchecks(tier, seed):
             axes=dict(F=[1, 2, 3], norm_var=[True, False], dtype=["float64", "float32", "int32", "int16"],
                       other_extents=[1, 2, 3]),
             replay=lambda case: _replay_local(case, seed)),
+        core.SubCheck(
+            "instances", _instance_configs(tier), lambda c: _eval_instances(c, seed),
+            "up to two LIVE Standardize instances and two statistics files: every applicable history over "
+            "{load(slot, path), new(slot), accumulate(slot, vector | tensor), save(slot, path)} up to the depth "
+            "bound, each re-executed from scratch in its own directory (no deep copies); at the end of every "
+            "history apply() of every live instance is the transform of the model's vectors for THAT instance and "
+            "a fresh load of every file is the transform of the vectors last saved there",
+            axes=dict(file_kind=list(I_KINDS), norm_var=[True, False], F=[2, 1], depth=4 if tier == "quick" else 5,
+                      letters=I_LETTERS, initial="file P holds the statistics of vectors 0,1; Q does not exist"),
+            replay=lambda case: _eval_instances(case["config"], seed, replay_ops=case["ops"]),
+            kind="explore"),
         core.SubCheck(
             "mismatch", [(F, nv, o) for F in M_F for nv in (True, False) for o in M_ORIGINS],
             lambda p: _eval_mismatch(p, seed),
